@@ -289,3 +289,68 @@ var vC02WellFormed = []string{
 	":srv 311 me n u h * :real", ":srv 671 me n :secure", ":n!u@h PRIVMSG me :\001VERSION\001", ":n!u@h PRIVMSG me :\001PING 1\001",
 	":n!u@h KICK #c x :bye", ":n!u@h PART #c :bye", ":x!u@h QUIT :gone", ":srv 433 * n3 :in use", "AUTHENTICATE +",
 }
+
+// C02 (d): the same odd lines arriving over a live connection - real Connect through the
+// stub dialler, real recv / runLoop / send goroutines and write(). Whatever the built-in
+// handlers answer (an echo of 600 bytes, say), the connection must stay up: the PING and
+// the PRIVMSG that follow are read, dispatched and answered, and the answer reaches the
+// server's end of the wire.
+func VerifC02Live() {
+	vSetOpt("deadlockIsViolation", 1)
+	track := vLen("track", 0, 1) == 1
+	cfg := NewConfig("me")
+	cfg.Server, cfg.Proxy = "srv:1", "vtest://proxy"
+	cfg.PingFreq = 0
+	cfg.Flood = true
+	shape := vC02Shapes[vLen("shape", 0, len(vC02Shapes)-1)]
+	rest := vStr("rest", vLen("restlen", 0, vParam("L", 1)))
+	vASCII(rest)
+	if run := vParam("RUN", 0); run > 0 {
+		f := vStr("runbyte", 1)
+		vAssume(f[0] != '\r' && f[0] != '\n' && f[0] != 0xC2 && f[0] != 0xE1 && f[0] != 0xE2 && f[0] != 0xE3)
+		pre, _ := vShapeParts(shape)
+		inVerb := false
+		for i := 0; i < len(pre); i++ {
+			if pre[i] == '\001' {
+				inVerb = true
+			} else if pre[i] == ' ' {
+				inVerb = false
+			}
+		}
+		if inVerb {
+			vAssume(f[0] < 0x80)
+		}
+		b := make([]byte, run)
+		for i := range b {
+			b[i] = f[0]
+		}
+		rest = string(b) + rest
+	}
+	pre, post := vShapeParts(shape)
+	stream := ":me!u@h JOIN #c\r\n:srv 353 me = #c :me n\r\n" + pre + rest + post + "\r\n" + "PING :tok\r\n:n!u@h PRIVMSG #c :still alive\r\n"
+	w := vNewLiveWire(stream)
+	vInstallDialer(&vDialer{wire: w})
+	conn := Client(cfg)
+	if track {
+		conn.EnableStateTracking()
+	}
+	got := 0
+	conn.HandleFunc("PRIVMSG", func(_ *Conn, l *Line) {
+		if l.Text() == "still alive" {
+			got++
+		}
+	})
+	err := conn.Connect()
+	vAssume(err == nil)
+	vRunPending()
+	all := ""
+	for _, x := range w.written {
+		all += x
+	}
+	vAssert(vContains(all, "PONG :tok\r\n"), "live:later-PING-answered-on-the-wire")
+	vAssert(got == 1, "live:later-line-still-dispatched")
+	vAssert(conn.Connected(), "live:still-connected")
+	conn.Close()
+	vRunPending()
+	vReach("end")
+}
